@@ -117,6 +117,15 @@ func (s *Sim) installHooks() {
 		s.yield(Op{Kind: opMutex, Method: "mu.Lock", Mu: m, ID: s.muNames[m]})
 		s.logEv(Event{Kind: "mu.Lock", ID: s.muNames[m], Res: site})
 	}
+	pub.SimLockStuck = func(m *sync.Mutex, site string) {
+		if s.inAbort() {
+			return
+		}
+		// the lock table says free and the real mutex is held: nobody will ever release it (e.g. a mutex copied while locked).
+		// The caller would hang in m.Lock(), invisibly to the bubble; block it durably instead -> "blocked-outside-seam" deadlock.
+		s.logEv(Event{Task: taskID(s.curTask()), Kind: "mu.STUCK", ID: s.muNames[m], Res: site})
+		select {}
+	}
 	pub.SimBeforeSend = func(site string) {
 		if s.inAbort() || s.curTask() == nil {
 			return
